@@ -149,7 +149,8 @@ class BasePlugin(object):
             return bool(flags & 1)
         return self.is_violation(flags, known_mask)
 
-    FINDING_BITS = 0
+    FINDING_BITS = 0       # guard reasons that are known findings (statement decides, code deviates)
+    UNDECIDED_BITS = 0     # guard reasons where the statement / the model does not decide
 
     def is_violation(self, flags, known_mask):
         if not flags & 2:
@@ -158,6 +159,8 @@ class BasePlugin(object):
         finding_reasons = reasons & self.FINDING_BITS
         if flags & 1:
             return True            # deviates from the recorded (modelled) behaviour too
+        if reasons & self.UNDECIDED_BITS:
+            return False           # the predicate does not constrain this input
         if finding_reasons and not (finding_reasons & ~known_mask):
             return False           # exactly a listed finding, behaviour as recorded
         return True
@@ -213,6 +216,10 @@ class BasePlugin(object):
             outs = [self.run_impl(c) for c in cases[:200]]
             result['coverage'] = {'evaluations': len(outs), 'distinct_nontrivial': 0,
                                   'rule': self.rule, 'samples': [self.describe(cases[0], outs[0])]}
+            # the implementation-only part of the search for a failing input still runs
+            xv, xcov = self.extra_checks(rng, tier, seed)
+            result['violations'] += xv
+            result['coverage'].update(xcov)
             return result
         ev = self.evaluate(cases)
         hist = collections.Counter()
